@@ -437,3 +437,114 @@ Proof.
               = map (fun d => outcome_at sc' (d_id d) (t_send t)) (t_docs t)) by (apply map_ext; intros; apply H).
   now rewrite E.
 Qed.
+
+(* ================= every script, whole-request errors included: exactly one answer ================= *)
+Lemma handle_cases cfg sc t :
+  t_docs t <> [] ->
+  let g := fun d => outcome_at sc (d_id d) (t_send t) in
+  handle cfg sc t =
+    if existsb is_whole (map g (t_docs t))
+    then ([], Some {| t_docs := t_docs t; t_n := t_n t; t_send := S (t_send t) |})
+    else if forallb is_ok (map g (t_docs t))
+    then (map (fun d => (d_id d, ASuccess)) (t_docs t), None)
+    else (flat_map (fun d => item_answer cfg t d (g d)) (t_docs t),
+          if (t_n t =? max_retries cfg)%nat then None
+          else Some {| t_docs := filter (fun d => is_retryable (g d)) (t_docs t); t_n := S (t_n t); t_send := S (t_send t) |}).
+Proof.
+  intros Hne g. unfold handle, outcomes. fold g.
+  destruct (t_docs t) as [|d0 ds] eqn:Ed; [contradiction|]. rewrite <- Ed.
+  destruct (existsb is_whole (map g (t_docs t))); [reflexivity|].
+  destruct (forallb is_ok (map g (t_docs t))); [reflexivity|].
+  rewrite item_answers_flat, retry_list_filter. destruct (t_n t =? max_retries cfg)%nat; reflexivity.
+Qed.
+
+Lemma script_of_len sc id : (length (script_of sc id) <= script_len sc)%nat.
+Proof.
+  unfold script_len. induction sc as [|[i l] sc IH]; simpl; [lia|]. destruct (i =? id); simpl; lia.
+Qed.
+
+Lemma whole_bound sc id k : is_whole (outcome_at sc id k) = true -> (k < script_len sc)%nat.
+Proof.
+  unfold outcome_at. intros H. pose proof (script_of_len sc id).
+  destruct (Nat.lt_ge_cases k (length (script_of sc id))) as [Hlt|Hge]; [lia|].
+  rewrite nth_overflow in H by assumption. discriminate.
+Qed.
+
+Definition once_ok (t : task) (tr : trace) : Prop :=
+  tr_fuel_out tr = false
+  /\ (forall d, In d (t_docs t) -> length (answers_of (d_id d) (tr_answers tr)) = 1%nat)
+  /\ (forall id, ~ In id (map d_id (t_docs t)) ->
+        answers_of id (tr_answers tr) = [] /\ count_calls id (tr_calls tr) = 0%nat).
+
+Lemma lineage_once cfg sc : forall fuel t rem,
+  (t_n t + rem = max_retries cfg)%nat -> (rem + (script_len sc - t_send t) < fuel)%nat ->
+  NoDup (map d_id (t_docs t)) -> once_ok t (lineage fuel cfg sc t).
+Proof.
+  induction fuel as [|f IH]; intros t rem Hn Hf Nd; [lia|].
+  rewrite lineage_S.
+  destruct (t_docs t) as [|d0 ds] eqn:Ed.
+  { unfold once_ok, handle, call_of; rewrite Ed; simpl; repeat split; intros; try contradiction; reflexivity. }
+  assert (Hne : t_docs t <> []) by (rewrite Ed; discriminate).
+  rewrite (handle_cases cfg sc t Hne). cbv zeta. unfold call_of. rewrite Ed. rewrite <- Ed. rewrite <- Ed in Nd.
+  set (g := fun d => outcome_at sc (d_id d) (t_send t)).
+  set (F := fun d1 : doc => item_answer cfg t d1 (outcome_at sc (d_id d1) (t_send t))).
+  set (P := fun d : doc => is_retryable (outcome_at sc (d_id d) (t_send t))).
+  assert (KF : keyed F) by exact (item_answer_keyed cfg t g).
+  destruct (existsb is_whole (map g (t_docs t))) eqn:Ew.
+  - (* the whole request failed: same documents, same retryCount, one send later *)
+    apply existsb_exists in Ew as [o [Ho Ew]]. apply in_map_iff in Ho as [dw [<- _]].
+    apply whole_bound in Ew.
+    cbn [fst snd].
+    set (t' := {| t_docs := t_docs t; t_n := t_n t; t_send := S (t_send t) |}).
+    destruct (IH t' rem) as [Hfo [Hin Hout]]; simpl; try assumption; try lia.
+    unfold once_ok, tr_app. cbn [tr_answers tr_calls tr_fuel_out app orb]. split; [assumption|]. split.
+    + intros d Hd. exact (Hin d Hd).
+    + intros id Hid. destruct (Hout id Hid) as [A C]. split; [assumption|].
+      rewrite count_calls_cons, (has_doc_out id (t_docs t) Hid), C. reflexivity.
+  - assert (Hnw : forall d, In d (t_docs t) -> is_whole (g d) = false).
+    { intros d Hd. destruct (is_whole (g d)) eqn:E; [|reflexivity].
+      assert (existsb is_whole (map g (t_docs t)) = true) by (apply existsb_exists; exists (g d); split; [now apply in_map|assumption]).
+      congruence. }
+    destruct (forallb is_ok (map g (t_docs t))) eqn:Eok.
+    + cbn [fst snd]. unfold once_ok, tr_app, tr_empty. cbn [tr_answers tr_calls tr_fuel_out orb]. rewrite !app_nil_r.
+      assert (K : keyed (fun d => [(d_id d, ASuccess)])) by (intros d' x [<-|[]]; reflexivity).
+      unfold once_ok. cbn [tr_answers tr_calls tr_fuel_out]. split; [reflexivity|]. split.
+      * intros d Hd. rewrite map_as_flat_map.
+        rewrite (answers_of_flat_in (fun d => [(d_id d, ASuccess)]) (t_docs t) d K Nd Hd). reflexivity.
+      * intros id Hid. rewrite map_as_flat_map.
+        rewrite (answers_of_flat_out (fun d => [(d_id d, ASuccess)]) (t_docs t) id K Hid).
+        rewrite count_calls_single, (has_doc_out id (t_docs t) Hid). split; reflexivity.
+    + destruct (t_n t =? max_retries cfg)%nat eqn:En.
+      * cbn [fst snd]. unfold once_ok, tr_app, tr_empty. cbn [tr_answers tr_calls tr_fuel_out orb]. rewrite !app_nil_r.
+        unfold once_ok. cbn [tr_answers tr_calls tr_fuel_out]. split; [reflexivity|]. split.
+        -- intros d Hd. rewrite (answers_of_flat_in F (t_docs t) d KF Nd Hd).
+           unfold F, item_answer. rewrite En. specialize (Hnw d Hd). unfold g in Hnw.
+           destruct (outcome_at sc (d_id d) (t_send t)); try discriminate; reflexivity.
+        -- intros id Hid. rewrite (answers_of_flat_out F (t_docs t) id KF Hid).
+           rewrite count_calls_single, (has_doc_out id (t_docs t) Hid). split; reflexivity.
+      * apply Nat.eqb_neq in En. destruct rem as [|rem']; [lia|].
+        cbn [fst snd].
+        set (t' := {| t_docs := filter P (t_docs t); t_n := S (t_n t); t_send := S (t_send t) |}).
+        assert (Nd' : NoDup (map d_id (t_docs t'))) by (apply NoDup_map_filter; assumption).
+        destruct (IH t' rem') as [Hfo [Hin Hout]]; simpl; try assumption; try lia.
+        unfold once_ok, tr_app. cbn [tr_answers tr_calls tr_fuel_out orb]. split; [assumption|]. split.
+        -- intros d Hd. rewrite answers_of_app, (answers_of_flat_in F (t_docs t) d KF Nd Hd), app_length.
+           specialize (Hnw d Hd). unfold g in Hnw.
+           destruct (P d) eqn:Er.
+           ++ assert (Hd' : In d (t_docs t')) by (apply filter_In; split; assumption).
+              rewrite (Hin d Hd'). unfold F, item_answer. apply Nat.eqb_neq in En. rewrite En. unfold P in Er.
+              destruct (outcome_at sc (d_id d) (t_send t)); try discriminate; reflexivity.
+           ++ assert (Hd' : ~ In (d_id d) (map d_id (t_docs t'))).
+              { intros H. apply in_map_iff in H as [y [E Hy]]. apply filter_In in Hy as [Hy Hr].
+                assert (y = d) by exact (NoDup_map_inj d_id (t_docs t) y d Nd Hy Hd E). subst y. congruence. }
+              destruct (Hout _ Hd') as [A C]. rewrite A. unfold F, item_answer. unfold P in Er.
+              destruct (outcome_at sc (d_id d) (t_send t)); try discriminate; reflexivity.
+        -- intros id Hid. rewrite answers_of_app, count_calls_app, count_calls_single, (has_doc_out id (t_docs t) Hid).
+           rewrite (answers_of_flat_out F (t_docs t) id KF Hid).
+           assert (Hid' : ~ In id (map d_id (t_docs t'))) by (intros H; apply Hid; eapply filter_ids_subset; exact H).
+           destruct (Hout _ Hid') as [A C]. rewrite A, C. split; reflexivity.
+Qed.
+
+Lemma batch_once cfg sc b :
+  NoDup (map d_id b) -> once_ok (fresh b) (lineage (fuel_for cfg sc) cfg sc (fresh b)).
+Proof. intros Nd. apply (lineage_once cfg sc _ (fresh b) (max_retries cfg)); simpl; auto. unfold fuel_for. lia. Qed.
